@@ -207,3 +207,100 @@ def check(case: dict) -> dict:
 
 
 ENGINES = [Engine('faults', cases, check, quick=120, thorough=6000, batch=100, fixed_cases=fixed_cases, thorough_s=1200.0)]
+
+
+# ---------------------------------------------------------------------------- connection collision (RFC 4271 6.8, RFC 4486: Cease 6/7)
+#
+# A second TCP connection from the configured peer reaches the real Listener while a first one is in OPENSENT, OPENCONFIRM or
+# ESTABLISHED.  Whichever connection exabgp gives up is a session it ends because of something it received: the last thing it
+# writes there is one Cease NOTIFICATION (6/x), and the connection it keeps sees no NOTIFICATION at all.
+
+COLLISION_STATES = ['ESTABLISHED', 'OPENCONFIRM-peer-id-lower', 'OPENCONFIRM-peer-id-higher', 'OPENSENT']
+
+
+def collision_fixed() -> list:
+    return [{'state': s, 'proactive_open': po, 'pre': []} for s in COLLISION_STATES for po in (False, True)]
+
+
+@st.composite
+def collision_cases(draw):
+    state = draw(st.sampled_from(COLLISION_STATES))
+    pre = draw(st.lists(st.sampled_from(PRE_OPS), max_size=4)) if state == 'ESTABLISHED' else []
+    return {'state': state, 'proactive_open': draw(st.booleans()), 'pre': [list(p) for p in pre], 'gap': draw(st.sampled_from([0.0, 0.05, 0.3, 1.0]))}
+
+
+def check_collision(case: dict) -> dict:
+    state = case['state']
+    res: dict = {}
+
+    async def main(loop):
+        text = sc.config(hold=30, routes=['route 40.0.0.0/24 next-hop 1.2.3.4'])
+        with nh.Harness(loop, config_text=text, env={'bgp.openwait': 12}) as hn:
+            if not hn.reload_ok:
+                raise RuntimeError(f'configuration refused: {hn.reactor.configuration.error}')
+            runner = sc.Runner(hn)
+            hn.start()
+            await hn.sleep(0.2)
+            first = runner.alive()
+            if first is None:
+                raise RuntimeError('no transport')
+            variant = 'rid-low' if state == 'OPENCONFIRM-peer-id-lower' else 'valid'
+            reached = await first.wait_message(codec.OPEN, 1, 5.0)
+            if state.startswith('OPENCONFIRM') and reached:
+                await first.send_msg(codec.OPEN, sc.open_body(variant))
+                reached = await first.wait_message(codec.KEEPALIVE, 1, 5.0)
+            elif state == 'ESTABLISHED':
+                reached = await nh.establish(first, sc.open_body('valid'), timeout=5.0)
+                await hn.sleep(0.5)
+                await runner.run(case['pre'])
+            res['reached'] = bool(reached) and first.closed_at is None
+            res['fsm'] = hn.peer(0).fsm.name()
+            await hn.sleep(case.get('gap', 0.0))
+            n_first = len(first.messages)
+            peer_ip = str(hn.peer(0).neighbor.session.peer_address)
+            second = hn.connect_from(peer_ip)
+            if case['proactive_open']:
+                await second.send_msg(codec.OPEN, sc.open_body(variant))
+            await hn.sleep(3.0)
+            res['first'] = {'after': [(ty, b) for _, ty, b in first.messages[n_first:]], 'closed': first.closed_at is not None}
+            res['second'] = {'after': [(ty, b) for _, ty, b in second.messages], 'closed': second.closed_at is not None}
+
+    try:
+        vloop.run(main)
+    except vloop.Deadlock as exc:
+        raise Violation('reactor:stalls', str(exc)) from None
+    if not res.get('reached'):
+        return {'nontrivial': False, 'classes': ['collision:state-not-reached:' + state]}
+    first, second = res['first'], res['second']
+    if first['closed'] and second['closed']:
+        given_up = [('first', first), ('second', second)]
+        kept = []
+    elif first['closed']:
+        given_up, kept = [('first', first)], [('second', second)]
+    elif second['closed']:
+        given_up, kept = [('second', second)], [('first', first)]
+    else:
+        raise Violation(f'collision:both-connections-kept@{state}', f'two connections from one peer are open 3 s after the second arrived (fsm {res["fsm"]})')
+    for name, conn in kept:
+        if any(ty == 3 for ty, _ in conn['after']):
+            raise Violation(f'collision:notification-on-the-kept-connection@{state}', f'{name}: {[(ty, b.hex()[:8]) for ty, b in conn["after"]]}')
+    for name, conn in given_up:
+        notes = [codec.decode_notification(b)[:2] for ty, b in conn['after'] if ty == 3]
+        # refused: the second connection is turned away, the first is kept; dropped: the first is given up for the second;
+        # accepted: the second was taken in place of the first and is closed all the same
+        which = 'dropped' if name == 'first' else ('accepted' if first['closed'] else 'refused')
+        if not notes:
+            raise Violation(f'collision:{which}-connection-closed-without-notification', f'{state}: the {name} connection was closed with {[ty for ty, _ in conn["after"]]} written, no Cease')
+        if len(notes) > 1:
+            raise Violation(f'collision:notification-sent-{len(notes)}-times', f'{state}: {notes}')
+        if conn['after'][-1][0] != 3:
+            raise Violation('collision:notification-not-last-message', f'{state}: {[ty for ty, _ in conn["after"]]}')
+        if notes[0][0] != 6:
+            raise Violation(f'collision:wrong-code:{notes[0][0]}/{notes[0][1]}', f'{state}: expected Cease 6/x on the {name} connection')
+    classes = ['collision', f'collision:{state}', 'collision:gave-up-' + '+'.join(n for n, _ in given_up)]
+    if case['proactive_open']:
+        classes.append('collision:second-connection-sends-open-at-once')
+    return {'nontrivial': True, 'classes': classes}
+
+
+ENGINES.append(Engine('collision', collision_cases, check_collision, quick=20, thorough=1500, batch=20, fixed_cases=collision_fixed, thorough_s=600.0))
